@@ -25,6 +25,7 @@ from cirbo.core.circuit import (
     RNOT,
     XOR,
 )
+from cirbo.core.circuit.exceptions import CircuitIsCyclicalError
 from cirbo.sat.cnf.cnf import Cnf, CnfRaw, Lit
 
 
@@ -77,15 +78,28 @@ def tseytin_transformation(
     }
 
     def process_gate(label: str) -> Lit:
-        if label in saved_lits:
-            return saved_lits[label]
-        gate = circuit.get_gate(label)
-        operands = gate.operands
-        lits = [process_gate(lit) for lit in operands]
-        gate_type = gate.gate_type
-        top_lit = get_lit(label)
-        _operations[gate_type](cnf, top_lit, lits)
-        return top_lit
+        # post-order walk with an explicit stack (operands left to right, a gate after
+        # its operands): the depth of the circuit is not bounded by the recursion limit
+        stack: list[str] = [label]
+        on_path: set[str] = set()
+        while stack:
+            current = stack[-1]
+            if current in saved_lits:
+                stack.pop()
+                continue
+            gate = circuit.get_gate(current)
+            pending = [op for op in gate.operands if op not in saved_lits]
+            if pending:
+                if pending[0] in on_path:
+                    raise CircuitIsCyclicalError()
+                on_path.add(current)
+                stack.append(pending[0])
+                continue
+            stack.pop()
+            on_path.discard(current)
+            lits = [saved_lits[op] for op in gate.operands]
+            _operations[gate.gate_type](cnf, get_lit(current), lits)
+        return saved_lits[label]
 
     for output_index in outputs:
         output_lit = process_gate(circuit.output_at_index(output_index))
